@@ -1,7 +1,8 @@
 # run parameters and manifest texts of the C19 check (read by ../props.py)
 PROP = {'engine': 'sup',
  'parts': [{'engine': 'sup', 'test': 'TestC19', 'quick': {'checks': 300, 'shards': 8, 'timeout': 600}, 'thorough': {'checks': 5000, 'shards': 12, 'timeout': 3400}},
-           {'engine': 'sup', 'test': 'TestC19Busy', 'quick': {'checks': 48, 'shards': 12, 'timeout': 600}, 'thorough': {'checks': 1200, 'shards': 14, 'timeout': 2400}}],
+           {'engine': 'sup', 'test': 'TestC19Busy', 'quick': {'checks': 48, 'shards': 12, 'timeout': 600}, 'thorough': {'checks': 1200, 'shards': 14, 'timeout': 2400}},
+           {'engine': 'sup', 'test': 'TestC19Backlog', 'quick': {'checks': 40, 'shards': 8, 'timeout': 600}, 'thorough': {'checks': 600, 'shards': 12, 'timeout': 2400}}],
  'test': 'TestC19',
  'level': 'exploration',
  'quick': {'checks': 300, 'shards': 8, 'timeout': 600},
@@ -40,3 +41,4 @@ PROP = {'engine': 'sup',
               'text, /proc and marker files'}
 PROP['rule'] += " Part 2 (TestC19Busy): one process whose stdout pipe is inherited by a grandchild that left the process group (setsid sleep 0.7-1.5 s) - the leader dies of SIGKILL at once, cmd.Wait returns only when the grandchild ends - is killed with a deadline of 0.6-1.8 s; 5-300 ms later 1-4 operations run concurrently on 1-3 healthy processes (trap 'exit 7' TERM): Terminate (must return within 300 ms without error and its target must report within 2 s), Terminate of an unknown name (error within 300 ms), Kill of an unknown name (error), Kill of a healthy process with 0.5-2 s to go (must return nil, target dead), Exec of `exit 3` (event exit 3). Kill of the stuck process: an error never before its deadline, nil only with the leader dead; afterwards exactly one event signal 9 for it, and for every healthy process at most one event whose value fits what was issued. Host stalls (lag monitor) make the case inconclusive. Non-trivial: an operation falls into the window in which the Kill is waiting."
 PROP['rule'] += ' Round-6 addition: every delivered event is kept as delivered (it carries pointers) and read again at the end of the case: it must still say what it said then (C19/event-changed-after-delivery).'
+PROP['rule'] += " Part 3 (TestC19Backlog, added for a round-8 seeded change): 0-24 short-lived processes (exit 1..9, half of the cases logging through a pipe) end while nobody reads the events; then a victim is killed with 1-2.5 s to go (alive, or ended by itself before): Kill must return nil and the victim be dead; only then the events are read: exactly one per process within 5 s, each with the status its script ends with (the victim: signal 9, or exit 5)."
